@@ -5,7 +5,7 @@ LEVEL = "model_checking"
 
 
 def run(ctx):
-    hosts_common.run_family(ctx, ["C06"], ["notify"])
+    hosts_common.run_family(ctx, ["C06"], ["notify"], shared=True)
 
 
 def replay(ctx, path):
